@@ -1,12 +1,18 @@
 /-
-C07 — chunk serializer output is a spec-conformant chunk stream.   STATUS: the structural clauses
-the property lists are proved here for every chunk the serializer model can emit; the headline
-clause — the independent specification reader (Rml/Spec/Chunk.lean) decodes the output of every
-history into exactly those messages (Thm A, `C07_legal`) — is NOT yet a theorem and is covered by
-the correspondence run and by the independent reference decoder oracle (!chunk.ref), which is
-itself cross-checked against the Lean specification reader (spec.feed).
+C07 — chunk serializer output is a spec-conformant chunk stream.   STATUS: proved.
+
+`C07_legal` (Thm A): for EVERY history of messages and chunk-size changes the serializer model
+accepts (any type ids, stream ids, timestamps, sizes 0..16,777,215, force/droppable flags), the
+concatenated packets are read by the independent specification reader (Rml/Spec/Chunk.lean, written
+from RTMP 1.0 §5.3.1; strict sequential class) into exactly the accepted messages, in order.
+Hypothesis (reading 11 of DESIGN.md §9a): a type-1 payload handed directly to `serialize` does not
+announce a chunk size other than the one in force (`SerHist.OpWF`; `C07_raw_type1_counterexample`
+shows the hypothesis is needed).  The structural clauses the property lists (legal, minimal csids;
+compression only when fields are equal; saturation / extended field; no chunk above the chunk size;
+size announced before use) are separate theorems below, for every chunk the model can emit.
 -/
-import Rml.Lemmas.Ser
+import Rml.Lemmas.SerHist
+
 namespace Rml.C07
 open Rml Rml.Bytes Rml.Chunk Rml.Ser
 
@@ -84,5 +90,29 @@ theorem C07_size_announced_first (s s' : State) (n ts : Nat) (p : Packet)
         · simp at hser
         · simp only [Outcome.ok.injEq, Prod.mk.injEq] at hser
           rw [← hser.1]; exact addChunks_maxCs _ _ _ _ _ _
+
+open Rml.SerHist in
+theorem keepSel_nil (xs : List (Packet × Msg)) : keepSel [] xs = xs := by
+  induction xs with
+  | nil => rfl
+  | cons x xs ih => obtain ⟨p, m⟩ := x; simp [keepSel, ih]
+
+open Rml.SerHist in
+/-- **C07 (Thm A).**  The bytes of every accepted history are a stream the specification reader
+    decodes into exactly the accepted messages, in order. -/
+theorem C07_legal (ops : List C19.SerOp) (hwf : HistWF {} ops) :
+    Spec.Chunk.decodeSeq (wire (trace {} ops)) = some (msgs (trace {} ops)) := by
+  have := hist_reads ops {} {} [] SR_init hwf
+  rw [keepSel_nil] at this
+  exact SerSpec.reads_decodeSeq this
+
+-- the hypothesis about hand-made type-1 payloads is needed (and the model mirrors the code here: the
+-- serializer does not adopt a size announced by a payload it was merely asked to carry): a raw
+-- type-1 payload announcing 1, then a 2-byte message, is not what the specification reader can read back
+open Rml.SerHist in
+theorem C07_raw_type1_counterexample :
+    (Spec.Chunk.decodeSeq (wire (trace {} [.msg { ts := 0, typ := 1, msid := 0, data := [0, 0, 0, 1] } false false,
+                                           .msg { ts := 0, typ := 8, msid := 1, data := [7, 7] } false false]))).isNone = true := by
+  decide +kernel
 
 end Rml.C07
